@@ -365,6 +365,12 @@ class StmtMixin:
     # ------------------------------------------------------------------ list mutation primitives
     def list_append(self, ref, x, st):
         h = st.heap[ref.rid]
+        if isinstance(x, VOpt) and not (h.et is not None and h.et[0] == 'opt'):
+            from .state import quick_unsat
+            if quick_unsat([z for z, q in st.pc if q] + [x.isnone], 2000):
+                x = x.inner                          # provably not None on this path
+            elif h.et is not None:
+                raise Unsupported("a value that may be None is appended to a list declared to hold %r" % (h.et,))
         if h.et is None:
             et = type_of_val(x, st)
             h = HList(et, empty_hlist(et).arr, z3.IntVal(0))
